@@ -32,6 +32,9 @@ type Scenario struct {
 	// ReadFail: kinds of store read ("ik", "ref", "tx", "balance", "account") that fail with a transient error while
 	// the requests run (not during the setup): every request that needs such a read must fail and leave nothing
 	ReadFail []string `json:"read_fail,omitempty"`
+	// ReadFailChoice: the scheduler may choose read_fail(t) (once per execution): the next store read of request t fails
+	// with a transient error. Replayed on the model (AResumeReadFail), unlike the scenario-wide switch above.
+	ReadFailChoice bool `json:"allow_read_fail,omitempty"`
 	// Directed: schedules given by choice names ("start(1)", "cancel(1)", "persist_ok(-1)"; "resume(0)*" = as long as
 	// that choice is enabled), executed (and replayed on the model) before the search; once a script is used up the
 	// first enabled choice is taken
@@ -95,6 +98,7 @@ func runDirected(sc Scenario, prefix []int, script []string, keepTrace bool) Exe
 	ex := Exec{SetupLen: len(disk.Logs), SetupChoices: setupChoices}
 	s := engx.New(disk, sc.Reqs)
 	s.AllowFail, s.AllowCrash, s.AllowCancel, s.AllowFailCtx = sc.Fail, sc.Crash, sc.Cancel, sc.FailCtx
+	s.AllowReadFail = sc.ReadFailChoice
 	if len(sc.ReadFail) > 0 {
 		s.ReadFail = map[string]bool{}
 		for _, k := range sc.ReadFail {
@@ -754,15 +758,78 @@ func scenarios() []Scenario {
 		// idempotency keys that are not "clean" text: surrounding blanks, inner blanks, case; a retry after a restart
 		{Name: "ik-with-blanks-retry", Setup: []engx.Req{fund("alice", 300), ik(xfer(10, "alice", "bob"), " k20 "), ik(xfer(10, "alice", "bob"), "K21\t")},
 			Reqs: []engx.Req{ik(xfer(10, "alice", "bob"), " k20 "), ik(xfer(10, "alice", "bob"), "K21\t"), ik(xfer(10, "alice", "bob"), "k20")}},
-		// transient failures of the store reads the write path depends on: the request fails and leaves nothing
-		{Name: "read-failure-ik", Setup: []engx.Req{fund("alice", 300), ik(xfer(10, "alice", "bob"), "k22")}, ReadFail: []string{"ik"}, Budget: 40,
-			Reqs: []engx.Req{ik(xfer(10, "alice", "bob"), "k22"), ik(metaA, "k23")}},
-		{Name: "read-failure-reference", Setup: []engx.Req{fund("alice", 300), ref(xfer(10, "alice", "bob"), "r22")}, ReadFail: []string{"ref"}, Budget: 40,
-			Reqs: []engx.Req{ref(xfer(20, "alice", "bob"), "r22"), xfer(5, "alice", "bob")}},
-		{Name: "read-failure-transaction", Setup: []engx.Req{fund("alice", 300), xfer(10, "alice", "bob"), engx.Req{Kind: "revert", RevertID: 1}}, ReadFail: []string{"tx"}, Budget: 40,
-			Reqs: []engx.Req{{Kind: "revert", RevertID: 1}, {Kind: "savemeta", Target: "TRANSACTION", TargetID: "7", Meta: map[string]string{"a": "1"}}}},
-		{Name: "read-failure-balance", Setup: []engx.Req{fund("alice", 50)}, ReadFail: []string{"balance", "account"}, Budget: 40,
-			Reqs: []engx.Req{xfer(100, "alice", "bob"), xfer(10, "alice", "bob")}},
+		// transient failures of the store reads the write path depends on. read_fail(t) is a scheduler choice (the next
+		// store read of request t fails), replayed on the model (AResumeReadFail): the request fails and leaves nothing,
+		// with two exceptions the model states as the code behaves: SaveMeta ignores a failed GetTransaction and writes,
+		// DeleteMetadata reports "not found". Directed schedules first, then the search over all points.
+		{Name: "read-failure-ik", Setup: []engx.Req{fund("alice", 300), ik(xfer(10, "alice", "bob"), "k22")}, ReadFailChoice: true, Budget: 60,
+			Reqs: []engx.Req{ik(xfer(10, "alice", "bob"), "k22"), ik(metaA, "k23")},
+			Directed: [][]string{
+				{"start(0)", "read_fail(0)", "start(1)", "resume(1)*", "persist_ok(-1)", "resume(1)*"}, // the lookup of a REPLAY fails: no second effect
+				{"start(1)", "read_fail(1)", "start(0)", "resume(0)*"},
+			}},
+		{Name: "read-failure-reference", Setup: []engx.Req{fund("alice", 300), ref(xfer(10, "alice", "bob"), "r22")}, ReadFailChoice: true, Budget: 60,
+			Reqs: []engx.Req{ref(xfer(20, "alice", "bob"), "r22"), ik(ref(xfer(5, "alice", "bob"), "r23"), "k30")},
+			Directed: [][]string{
+				{"start(0)", "read_fail(0)", "start(1)", "resume(1)*", "persist_ok(-1)", "resume(1)*"},
+				{"start(1)", "resume(1)", "resume(1)", "read_fail(1)", "start(0)", "resume(0)*"},
+			}},
+		{Name: "read-failure-transaction", Setup: []engx.Req{fund("alice", 300), xfer(10, "alice", "bob"), engx.Req{Kind: "revert", RevertID: 1}}, ReadFailChoice: true, Budget: 60,
+			Reqs: []engx.Req{{Kind: "revert", RevertID: 1}, ik(engx.Req{Kind: "savemeta", Target: "TRANSACTION", TargetID: "7", Meta: map[string]string{"a": "1"}}, "k24"),
+				ik(engx.Req{Kind: "delmeta", Target: "TRANSACTION", TargetID: "0", Key: "a"}, "k25")},
+			Directed: [][]string{
+				{"start(0)", "read_fail(0)"},
+				{"start(1)", "resume(1)", "read_fail(1)", "resume(1)*", "persist_ok(-1)", "resume(1)*"}, // SaveMeta on a missing transaction: written
+				{"start(1)", "resume(1)*"}, // ... and refused when the read answers
+				{"start(2)", "resume(2)", "read_fail(2)"}, // DeleteMetadata on an existing transaction: "not found"
+			}},
+		{Name: "read-failure-balance", Setup: []engx.Req{fund("alice", 50)}, ReadFailChoice: true, Budget: 60,
+			Reqs: []engx.Req{xfer(100, "alice", "bob"), xfer(10, "alice", "bob")},
+			Directed: [][]string{
+				{"start(0)", "resume(0)", "read_fail(0)", "start(1)", "resume(1)*", "persist_ok(-1)", "resume(1)*"},
+				{"start(1)", "resume(1)", "read_fail(1)"},
+			}},
+		// the balance read fails under the locks while a second spender is queued behind them: released, waiter granted
+		{Name: "read-failure-balance-queued", Setup: []engx.Req{fund("alice", 100)}, ReadFailChoice: true, Budget: 60,
+			Reqs: []engx.Req{xfer(100, "alice", "bob"), xfer(100, "alice", "carol")},
+			Directed: [][]string{
+				{"start(0)", "resume(0)", "start(1)", "resume(1)*", "read_fail(0)", "resume(1)*", "persist_ok(-1)", "resume(1)*"},
+			}},
+		// compile-time read of account metadata (ResolveResources) fails: answered as a compilation failure
+		{Name: "read-failure-account", Setup: []engx.Req{fund("alice", 100), meta}, ReadFailChoice: true, Budget: 60,
+			Reqs: []engx.Req{ik(viaMeta, "k26"), ref(viaMeta, "r26")},
+			Directed: [][]string{
+				{"start(0)", "resume(0)", "read_fail(0)", "start(1)", "resume(1)*", "persist_ok(-1)", "resume(1)*"},
+				{"start(1)", "resume(1)", "read_fail(1)", "start(0)", "resume(0)*", "persist_ok(-1)", "resume(0)*"},
+			}},
+		// a key lookup fails while ANOTHER request holds the reference the failing request would have taken next: the
+		// failing request must give back its key only; the holder's reference stays reserved (a third request conflicts)
+		{Name: "read-failure-while-reserved", Setup: []engx.Req{fund("alice", 300)}, ReadFailChoice: true, Budget: 80,
+			Reqs: []engx.Req{ref(xfer(10, "alice", "bob"), "r27"), ik(ref(xfer(20, "alice", "bob"), "r27"), "k27"), ref(xfer(30, "alice", "bob"), "r27")},
+			Directed: [][]string{
+				{"start(0)", "resume(0)*", "start(1)", "read_fail(1)", "start(2)", "resume(2)*", "persist_ok(-1)", "resume(0)*"},
+				{"start(1)", "start(0)", "resume(0)*", "read_fail(1)", "persist_ok(-1)", "resume(0)*"},
+			}},
+		// contenders on the same key / revert while the holder's read fails: the contender was already answered busy
+		{Name: "read-failure-contended", Setup: []engx.Req{fund("alice", 300), xfer(10, "alice", "bob")}, ReadFailChoice: true, Budget: 80,
+			Reqs: []engx.Req{ik(xfer(10, "alice", "bob"), "k28"), ik(xfer(10, "alice", "bob"), "k28"), {Kind: "revert", RevertID: 1}, {Kind: "revert", RevertID: 1}},
+			Directed: [][]string{
+				{"start(0)", "start(1)", "read_fail(0)", "resume(1)*"},
+				{"start(2)", "start(3)", "read_fail(2)", "resume(3)*"},
+			}},
+		// a read failure, then a retry of the same request with the same key (and reference)
+		{Name: "read-failure-then-retry", Setup: []engx.Req{fund("alice", 300)}, ReadFailChoice: true, Budget: 60,
+			Reqs: []engx.Req{ik(ref(xfer(10, "alice", "bob"), "r29"), "k29"), ik(ref(xfer(10, "alice", "bob"), "r29"), "k29")},
+			Directed: [][]string{
+				{"start(0)", "read_fail(0)", "start(1)", "resume(1)*", "persist_ok(-1)", "resume(1)*"},
+				{"start(0)", "resume(0)", "resume(0)", "read_fail(0)", "start(1)", "resume(1)*", "persist_ok(-1)", "resume(1)*"},
+				{"start(0)", "resume(0)", "resume(0)", "resume(0)", "resume(0)", "resume(0)", "read_fail(0)", "start(1)", "resume(1)*", "persist_ok(-1)", "resume(1)*"},
+			}},
+		// reads in the FIRST region of a request (no yield point before them: a metadata write on a transaction without a
+		// key, a meta() script without key and reference) cannot be failed by the scheduler choice: scenario-wide switch,
+		// oracle only
+		{Name: "read-failure-first-region", Setup: []engx.Req{fund("alice", 300), xfer(10, "alice", "bob"), meta}, ReadFail: []string{"tx", "account"}, Budget: 40,
+			Reqs: []engx.Req{{Kind: "delmeta", Target: "TRANSACTION", TargetID: "1", Key: "a"}, viaMeta}},
 		{Name: "crash-points", Setup: []engx.Req{fund("alice", 100)}, Crash: true, Fail: true, Reqs: []engx.Req{
 			ik(xfer(10, "alice", "bob"), "k3"), ik(xfer(10, "alice", "bob"), "k3"),
 			{Kind: "delmeta", Target: "ACCOUNT", TargetID: "alice", Key: "a"}}},
@@ -820,6 +887,8 @@ func (n *names) action(c engx.Choice, reqs []engx.Req, off int) string {
 		return fmt.Sprintf("AResume %d", c.Tid+off)
 	case "cancel":
 		return fmt.Sprintf("ACancel %d", c.Tid+off)
+	case "read_fail":
+		return fmt.Sprintf("AResumeReadFail %d", c.Tid+off)
 	case "persist_ok":
 		return "APersistOk"
 	case "persist_fail":
@@ -871,7 +940,8 @@ func coqCase(sc Scenario, ex Exec) string {
 			x = "RCrashed"
 		default:
 			cls, ok := map[string]string{"ik-busy": "EIkBusy", "conflict": "EConflict", "not-found": "ENotFound", "already-reverted": "EAlreadyReverted",
-				"revert-occurring": "ERevertOccurring", "insufficient": "EInsufficient", "no-postings": "ENoPostings", "lock-cancelled": "ELockCancelled"}[r.Err]
+				"revert-occurring": "ERevertOccurring", "insufficient": "EInsufficient", "no-postings": "ENoPostings", "lock-cancelled": "ELockCancelled",
+				"store-read": "EStoreRead", "compilation-failed": "ECompilationFailed"}[r.Err]
 			if !ok {
 				cls = "EKindMismatch (* " + strings.ReplaceAll(r.Err, "*)", "") + " *)"
 			}
@@ -897,9 +967,15 @@ func coqCase(sc Scenario, ex Exec) string {
 		}
 		events = append(events, fmt.Sprintf("(%d, %s, %s, %s)", 100+p.Tid, kind, tx, rv))
 	}
+	var metaReaders []string // the requests whose script reads account metadata when it is compiled
+	for i, r := range sc.Reqs {
+		if r.Kind == "create" && strings.Contains(r.Script, "meta(") {
+			metaReaders = append(metaReaders, fmt.Sprint(100+i))
+		}
+	}
 	j := func(xs []string) string { return "[" + strings.Join(xs, ";\n      ") + "]" }
-	return fmt.Sprintf("{| ec_setup := %s;\n   ec_reqs := %s;\n   ec_allow_fail := %v; ec_allow_crash := %v; ec_max_crashes := 1;\n   ec_allow_cancel := %v; ec_max_cancels := 1;\n   ec_steps := %s;\n   ec_final_choices := %d;\n   ec_disk := %s;\n   ec_resps := %s;\n   ec_events := %s |}",
-		j(setup), j(reqs), sc.Fail, sc.Crash, sc.Cancel, j(steps), ex.FinalCount, j(disk), j(resps), j(events))
+	return fmt.Sprintf("{| ec_setup := %s;\n   ec_reqs := %s;\n   ec_allow_fail := %v; ec_allow_crash := %v; ec_max_crashes := 1;\n   ec_allow_cancel := %v; ec_max_cancels := 1;\n   ec_allow_read_fail := %v; ec_max_read_fails := 1; ec_meta_readers := [%s];\n   ec_steps := %s;\n   ec_final_choices := %d;\n   ec_disk := %s;\n   ec_resps := %s;\n   ec_events := %s |}",
+		j(setup), j(reqs), sc.Fail, sc.Crash, sc.Cancel, sc.ReadFailChoice, strings.Join(metaReaders, "; "), j(steps), ex.FinalCount, j(disk), j(resps), j(events))
 }
 
 func (n *names) ledgerPostings(ps ledger.Postings) string {
